@@ -50,12 +50,66 @@ def run(ctx):
                       nontrivial=lambda c, r: r != c[2], describe=lambda c: (repr(c[1]), repr(c[3])[:300]),
                       bucket=lambda c, r: "changed" if r != c[2] else "identity")
 
+    # the same pairs on trees an application has already USED: every computed attribute of every node read (py_val of the literals, full_name …), the tree hashed,
+    # printed, compared and traversed — stripping a used tree gives what stripping a fresh one gives (state an earlier use leaves on the nodes must not show)
+    import dataclasses as _dc, functools as _ft
+    from odata_query import visitor as _vis
+    def touch(n):
+        if isinstance(n, list):
+            for x in n:
+                touch(x)
+            return
+        if not _dc.is_dataclass(n):
+            return
+        for attr in dir(type(n)):
+            if attr.startswith("__"):
+                continue
+            d = getattr(type(n), attr, None)
+            if isinstance(d, (property, _ft.cached_property)):
+                try:
+                    getattr(n, attr)
+                except Exception:  # noqa
+                    pass
+            elif attr in ("full_name",) and callable(d):
+                try:
+                    getattr(n, attr)()
+                except Exception:  # noqa
+                    pass
+        for f in _dc.fields(n):
+            touch(getattr(n, f.name))
+    def used_strip(c):
+        tree = copy.deepcopy(c[3])
+        touch(tree)
+        try:
+            hash(tree)
+        except TypeError:
+            pass
+        repr(tree); tree == copy.deepcopy(c[3])
+        try:
+            _vis.NodeVisitor().visit(tree)
+        except RecursionError:
+            pass
+        return real_strip(c[1], tree)
+    lit_kinds = (ast.DateTime, ast.Duration, ast.Date, ast.Time, ast.GUID, ast.Float, ast.Geography)
+    def has_lit(n):
+        return isinstance(n, lit_kinds) or (isinstance(n, list) and any(has_lit(x) for x in n)) or (_dc.is_dataclass(n) and any(has_lit(getattr(n, f.name)) for f in _dc.fields(n)))
+    used = [c for i, c in enumerate(cases) if has_lit(c[3]) or i % 4 == 0]
+    for t in ["x/dt eq 2020-01-01T10:00:00Z", "x/d gt duration'P1DT2H'", "x/a eq 1 and x/when lt 2020-02-29T23:59:59.5+02:00", "now() sub x/dt gt duration'PT1H'",
+              "x/d in (2020-01-01, 1999-12-31) or x/t eq 12:00:00", "x/g eq 01234567-89ab-cdef-0123-456789abcdef", "x/kids/any(k: k/dt ge 2001-01-01T00:00:00Z and x/dur eq duration'P2D')"]:
+        nd = impl.real_parse_ast(t)
+        used.append((enc(VARS[0]), VARS[0], enc(nd), nd)); used.append((enc(ast.Identifier("x")), ast.Identifier("x"), enc(nd), nd))
+    common.correspond(ctx, "strip-used-tree", used, real_fn=used_strip, model_reqs=lambda c: driver.req("strip", c[0], c[2]),
+                      nontrivial=lambda c, r: r != c[2], describe=lambda c: (repr(c[1]), repr(c[3])[:300], "after reading every computed attribute of every node"),
+                      bucket=lambda c, r: "used/changed" if r != c[2] else "used/identity")
+
     def search(ctx):
         cand = [c for (n, c, r, m) in ctx.diffs] or cases
         specs = driver.run_batch([driver.req("reroot", c[0], c[2]) for c in cand])
         found = []
         for c, sp in zip(cand, specs):
             r = real_strip(c[1], copy.deepcopy(c[3]))
+            if r == sp:
+                r = used_strip(c)      # … and on a tree whose computed attributes have been read before
             if r != sp:
                 found.append({"property": "C17", "variable": repr(c[1]), "expression": repr(c[3]), "real_result": r[:1500], "specified": sp[:1500],
                               "why": "expression_relative_to_identifier differs from re-rooting the paths rooted at the variable",
